@@ -114,9 +114,10 @@ def squad(cx, n=4, g=0, method="trapz", bc="natural", yshape="vec"):
     y = cx.sym("y", shape)
     d = dim % len(shape)
     yl = y.movedim(d, -1)       # yl: (..., nx)
-    kw = {"bc_type": bc} if method == "cspline" else {}
+    kw = {"bc_type": bc} if method in ("cspline", None) else {}
     with torch.no_grad():
-        sq = SQuad(x, method=method, **kw)
+        sq = SQuad(x, method=method, **kw) if method is not None else SQuad(x, **kw)
+        method = method or "cspline"        # the documented default
         cs = sq.cumsum(y, dim=dim)
         tot = sq.integrate(y, dim=dim)
         totk = sq.integrate(y, dim=dim, keepdim=True)
@@ -222,6 +223,13 @@ def configs(tier):
         add("%s/n3/grid0/shape(2,n,1)/dim1" % method, squad, n=3, g=0, method=method, yshape=((2, "n", 1), 1))
         add("%s/n3/grid0/shape(2,n,1)/dim-2" % method, squad, n=3, g=0, method=method, yshape=((2, "n", 1), -2))
     add("trapz/n3/grid0/shape(n,2,1)/dim-3", squad, n=3, g=0, method="trapz", yshape=(("n", 2, 1), -3))
+    # four-dimensional samples, sample dimension first / second
+    add("trapz/n2/grid0/shape(n,2,1,2)/dim0", squad, n=2, g=0, method="trapz", yshape=(("n", 2, 1, 2), 0))
+    add("simpson/n3/grid0/shape(2,n,1,2)/dim1", squad, n=3, g=0, method="simpson", yshape=((2, "n", 1, 2), 1))
+    add("cspline/n3/grid0/shape(n,1,2,2)/dim-4", squad, n=3, g=0, method="cspline", yshape=(("n", 1, 2, 2), -4))
+    # the documented default method (cspline) with a requested boundary condition
+    for bc in ("clamped", "not-a-knot"):
+        add("default_method/%s/n4/grid1/vec" % bc, squad, n=4, g=1, method=None, bc=bc)
     for bc in ("natural", "clamped", "not-a-knot"):
         add("cspline/%s/n4/grid0/vec" % bc, squad, n=4, g=0, method="cspline", bc=bc)
     add("cspline/natural/n3/grid2/rows", squad, n=3, g=2, method="cspline", bc="natural", yshape="rows")
